@@ -33,7 +33,7 @@ def run(tier):
         return {}
     chrun.settle(chk, res, classify=lambda r: ':'.join((((r.get('explain') or {}).get('why')) or 'normal-form:violated').split(':')[:2]), make_replay=mk)
     chk.level = 'exploration'
-    chk.bounds = dict(grammar=f'a 1/{gsub} slice (VERIF_SEED) of 338 688 grammar scripts x 14 option sets (strip_whitespace alone, operators alone, reindent with 8 sub-option combinations, aligned)',
+    chk.bounds = dict(grammar=f'a 1/{gsub} slice (VERIF_SEED) of 544 320 grammar scripts x 15 option sets (strip_whitespace alone, operators alone, reindent with 8 sub-option combinations, aligned)',
                       outside='other option combinations and widths; scripts outside the generator')
     chk.extra['rule'] = 'one evaluation = one CrossHair condition (a partition of the script x option space explored to exhaustion); distinct = conditions confirmed over all paths'
     chk.states = len(jobs)
